@@ -60,6 +60,18 @@ def run_case(part, m, rng, campaign):
             calls += [('setopts', dict(txpad=1)), ('setfc', dict(bs=1)), ('setll', dict(mtu=16)), ('send', {})]
         if order == 'bind_close':
             calls += [('send', {}), ('close', {}), ('send', {}), ('recv', {})]
+        inst2 = addr2 = None
+        if order == 'bind_bind':
+            # a second bind() of the same socket with another address: whatever it decides, no option of a bound socket is rewritten
+            for _try in range(20):
+                inst2 = {'txa': with_stray(rng, rand_address(rng)), 'rxa': None}
+                try:
+                    addr2 = make_layer_address(inst2)
+                    break
+                except ValueError:
+                    addr2 = None
+            if addr2 is not None:
+                calls.append(('bind2', {}))
         state_before_bind = None
         part.hist('prior', prior)
         part.hist('order', order)
@@ -81,6 +93,9 @@ def run_case(part, m, rng, campaign):
                     s.set_ll_opts(**kw)
                 elif name == 'bind':
                     s.bind('vcan0', addr)
+                elif name == 'bind2':
+                    was_bound = s.bound
+                    s.bind('vcan0', addr2)
                 elif name == 'send':
                     s.send(b'\x01\x02')
                 elif name == 'recv':
@@ -110,6 +125,8 @@ def run_case(part, m, rng, campaign):
                 mo = kq(m, 'S setfc ' + ' '.join(tok(kw.get(k)) for k in ('bs', 'stmin', 'wftmax')))
             elif name == 'setll':
                 mo = kq(m, 'S setll ' + ' '.join(tok(kw.get(k)) for k in ('mtu', 'tx_dl', 'tx_flags')))
+            elif name == 'bind2':
+                mo = kq(m, 'S bind 0 ' + addr_fields(inst2['txa']))
             elif name == 'bind':
                 if inst['rxa'] is None:
                     mo = kq(m, 'S bind 0 ' + addr_fields(inst['txa']))
@@ -164,6 +181,10 @@ def run_case(part, m, rng, campaign):
                 keep = state_before_bind['flags'] & ~0x202
                 if after['flags'] & ~0x202 != keep:
                     part.violation('oracle', campaign, 'C20:option-not-preserved', 'bind() changed flags 0x%x -> 0x%x' % (state_before_bind['flags'], after['flags']), case)
+                    return
+            elif name == 'bind2':
+                if any(x.startswith('set:') for x in parts):
+                    part.violation('oracle', campaign, 'C20:options-changed-after-bind', 'a second bind() rewrote options of the bound socket: %s %s' % (outcome, parts), dict(case, second=inst2))
                     return
             elif name in ('setopts', 'setfc', 'setll') and s.bound:
                 if outcome != 'runtimeerror' or log:
